@@ -32,13 +32,17 @@ func init() {
 func helmCLIChild(seed uint64, n int, tier string, out string, replay string) {
 	var args []string
 	json.Unmarshal([]byte(os.Getenv("CORR_HELM_ARGS")), &args)
-	cmd, err := helmcmd.NewRootCmd(io.Discard, args)
+	var w io.Writer = io.Discard
+	if os.Getenv("CORR_HELM_STDOUT") != "" {
+		w = os.Stdout
+	}
+	cmd, err := helmcmd.NewRootCmd(w, args)
 	if err != nil {
 		fmt.Println("HELMCLI newroot-error")
 		return
 	}
 	cmd.SetArgs(args)
-	cmd.SetOut(io.Discard)
+	cmd.SetOut(w)
 	cmd.SetErr(io.Discard)
 	err = cmd.Execute()
 	fmt.Printf("HELMCLI done err=%v\n", err != nil)
